@@ -22,7 +22,7 @@ fn base(name: &'static str) -> Profile {
     }
 }
 
-const DISCONNECTS: [(Op, u32); 5] = [(DisconnectShutdown, 2), (DisconnectClose, 2), (DisconnectHandle, 2), (DisconnectDrop, 2), (Connect, 6)];
+const DISCONNECTS: [(Op, u32); 6] = [(DisconnectShutdown, 2), (DisconnectClose, 2), (DisconnectHandle, 2), (DisconnectDrop, 2), (DisconnectMute, 2), (Connect, 6)];
 
 pub fn calls() -> Profile {
     let mut p = base("calls");
@@ -109,6 +109,7 @@ pub fn channels() -> Profile {
         (DisconnectClose, 1),
         (DisconnectHandle, 1),
         (DisconnectDrop, 1),
+        (DisconnectMute, 1),
         (Connect, 4),
     ];
     p.ops = 70;
@@ -207,6 +208,6 @@ pub fn abuse() -> Profile {
     p.weights.push((AbortUnknown, 3));
     p.weights.push((EmitStranger, 3));
     p.weights.push((Connect, 12));
-    p.weights.extend([(DisconnectShutdown, 2), (DisconnectClose, 2), (DisconnectHandle, 1), (DisconnectDrop, 2)]);
+    p.weights.extend([(DisconnectShutdown, 2), (DisconnectClose, 2), (DisconnectHandle, 1), (DisconnectDrop, 2), (DisconnectMute, 2)]);
     p
 }
